@@ -4,6 +4,7 @@ import c11lib as L
 NAME = "fivecells"
 MODULE = "cspuz.puzzle.fivecells"
 FUNC = "solve_fivecells"
+T2_PER_FILE = 2
 
 
 def call(mod, pb):
@@ -53,6 +54,6 @@ def tier2(tier, rng):
     th = tier == "thorough"
     if th:
         yield _rand(rng, 2, 3, 1, 0.4)
-    for (h, w, holes) in [(1, 1, 0), (1, 5, 0), (5, 1, 0), (2, 2, 0)]:
-        for _ in range(8 if th else 2):
+    for (h, w, holes, k) in [(1, 1, 0, 4), (1, 5, 0, 2), (5, 1, 0, 2), (2, 2, 0, 4)]:
+        for _ in range(k if th else 1):
             yield _rand(rng, h, w, holes, 0.4)
